@@ -64,7 +64,8 @@ def run(ctx):
         if W is None:
             raise AnalysisBroken("no struct in writer " + wn)
         for msg, node in probs:
-            ctx.bad("R5.shape", "writer-shape|%s:%s|%s" % (PT, wn, msg.split(":")[0]), P.where(node), msg)
+            ctx.inconclusive("R5.shape", "writer-shape|%s:%s|%s" % (PT, wn, msg.split(":")[0]), P.where(node),
+                             "the writer's call sequence is not in a form the grammar extraction understands", msg)
         fix_shared_structs(W)
         c = Cmp(ctx, PT, PT)
         c.compare(sname, W, None, wn, None)
@@ -75,7 +76,8 @@ def run(ctx):
     if W is None:
         raise AnalysisBroken("page header struct not found in carquet_page_writer_finalize")
     for msg, node in probs:
-        ctx.bad("R5.shape", "writer-shape|%s:%s|%s" % (PW, fin.name, msg.split(":")[0]), P.where(node), msg)
+        ctx.inconclusive("R5.shape", "writer-shape|%s:%s|%s" % (PW, fin.name, msg.split(":")[0]), P.where(node),
+                         "the writer's call sequence is not in a form the grammar extraction understands", msg)
     fix_shared_structs(W)
     c = Cmp(ctx, PW, PW)
     c.compare("PageHeader", W, None, fin.name, None)
